@@ -89,7 +89,7 @@ func Main(args []string) int {
 	evs := events()
 	quick := f.Tier == "quick"
 	depth := map[bool]int{true: 4, false: 5}[quick]
-	budget := map[bool]time.Duration{true: 240 * time.Second, false: 27 * time.Minute}[quick]
+	budget := map[bool]time.Duration{true: 400 * time.Second, false: 27 * time.Minute}[quick]
 	if f.Budget > 0 {
 		budget = f.Budget
 	}
